@@ -1,7 +1,7 @@
 (* C20 -- property theorems only. *)
 From Coq Require Import List NArith Bool.
 Import ListNotations.
-Require Import Verif.Lib.Wire Verif.Lib.C20Types Verif.Gen.Facts_C20 Verif.Model.C20 Verif.Proofs.C20 Verif.Proofs.C20_commit.
+Require Import Verif.Lib.Wire Verif.Lib.C20Types Verif.Gen.Facts_C20 Verif.Model.C20 Verif.Proofs.C20 Verif.Proofs.C20_commit Verif.Proofs.C20_rel.
 Require Verif.Model.C04.
 
 Theorem C20_keys_faithful : forall s k f,
@@ -61,3 +61,25 @@ Theorem C20_disabled_commit_records_nothing : forall acts intrs_of,
   commit_and_register false acts intrs_of = Ok init.
 Proof. exact disabled_commit_records_nothing. Qed.
 Print Assumptions C20_disabled_commit_records_nothing.
+
+(* relations link exactly the declared pairs, in both directions (distinct introspectables distinguishable,
+   one registration per key, relations only added) *)
+Theorem C20_relations_exact : forall l s a b,
+  register_all init l = Ok s ->
+  forallb (fun x => forallb is_rel (snd x)) l = true ->
+  NoDup (map keyof l) ->
+  (forall x y, In x (map fst l) -> In y (map fst l) -> cont_eq x y = true -> x = y) ->
+  In a (map fst l) -> In b (map fst l) ->
+  (linked s a b = true <-> a <> b /\ declared l a b).
+Proof. exact relations_exact. Qed.
+Print Assumptions C20_relations_exact.
+
+Theorem C20_relations_symmetric : forall l s a b,
+  register_all init l = Ok s ->
+  forallb (fun x => forallb is_rel (snd x)) l = true ->
+  NoDup (map keyof l) ->
+  (forall x y, In x (map fst l) -> In y (map fst l) -> cont_eq x y = true -> x = y) ->
+  In a (map fst l) -> In b (map fst l) ->
+  linked s a b = linked s b a.
+Proof. exact relations_symmetric. Qed.
+Print Assumptions C20_relations_symmetric.
